@@ -27,6 +27,12 @@ case = {'cfg': {...}, 'ops': [[op, arg?]...], 'kind': str, 'model': bool (defaul
        | connect               the application calls network.connect_server() (valid while the watchdog is not in
                                its reconnect delay)
        | lossrec <reason>      a loss whose CLOSED listener (application) reconnects and logs in again inside the event
+       | loginslow             login() as its own task whose SessionInitialized listener of the APPLICATION stays
+                               suspended (the library's burst is complete, the reader not started) until `release`
+                               (monitor only)
+       | breakwrites 0|1       from now on writes of the client to the server fail (1: the transport is already gone,
+                               wait_closed() does not suspend); the loss is noticed by whichever task of the LIBRARY
+                               writes next: the keep-alive (`tick 601`) or the wishlist job (`wl`)   (monitor only)
 An operation that is not applicable in the current state (e.g. `populate` without a reader) is skipped on
 both sides (`inv=1`); applicability is the same predicate on both sides.
 
@@ -260,7 +266,7 @@ def _in_app_listener(task: asyncio.Task) -> bool:
     for _ in range(200):
         if c is None:
             return False
-        if getattr(c, '__name__', '') in ('gate_state', 'gate_destr'):
+        if getattr(c, '__name__', '') in ('gate_state', 'gate_destr', 'gate_init'):
             return True
         c = getattr(c, 'cr_await', None)
     return False
@@ -342,7 +348,7 @@ def _run_impl(case: dict) -> dict:
 
         # ---- listeners of the "application" that suspend (gates opened by the schedule) or reconnect in place;
         # registered last: every listener of the library has run when they are reached
-        arm: dict = {'closed': None, 'destr': None}
+        arm: dict = {'closed': None, 'destr': None, 'init': None}
         held: list = []                  # gates of listeners that are suspended now
         nested = {'fail': 0, 'inv': 0}
 
@@ -375,13 +381,21 @@ def _run_impl(case: dict) -> dict:
             held.append(g)
             await g.wait()
 
+        async def gate_init(e):
+            g, arm['init'] = arm['init'], None
+            if g is None:
+                return
+            held.append(g)
+            await g.wait()
+
         client.events.register(SessionInitializedEvent, on_init)
+        client.events.register(SessionInitializedEvent, gate_init, priority=1000)
         client.events.register(SessionDestroyedEvent, on_destroyed)
         client.events.register(ConnectionStateChangedEvent, on_state)
         client.events.register(ConnectionStateChangedEvent, on_closed_first, priority=0)
         client.events.register(ConnectionStateChangedEvent, gate_state, priority=1000)
         client.events.register(SessionDestroyedEvent, gate_destr, priority=1000)
-        keep = [on_init, on_destroyed, on_state, on_closed_first, gate_state, gate_destr]
+        keep = [on_init, on_destroyed, on_state, on_closed_first, gate_state, gate_destr, gate_init]
         sconn = client.network.server_connection
         flags = {'started': False, 'stopped': False}
         marks = {'att': 0, 'recv': 0, 'init': 0, 'destr': 0, 'conn': 0, 'closed': 0, 'any_att': 0}
@@ -483,7 +497,7 @@ def _run_impl(case: dict) -> dict:
                 r=int(len(client.rooms.rooms) > 0), p=int(params),
                 open=net.open_sockets() + len(net.listeners))
             extra = {'any_att': len(net.attempts) - marks['any_att'], 'other_frames': len(new_msgs) - len(frames) - logins,
-                     'held': held_sites()}
+                     'held': held_sites(), 'login_in_progress': any(not t.done() for t in app_calls)}
             marks.update(att=len(srv_att), recv=len(srv.received), init=ev['init'], destr=ev['destr'],
                          conn=ev['conn'], closed=len(ev['closed']), any_att=len(net.attempts))
             return line, extra
@@ -579,6 +593,27 @@ def _run_impl(case: dict) -> dict:
                     srv.mode = saved_mode
                     if tasks_at_return is not None:
                         tasks_at_return = sorted(tasks_at_return + [t for t in late if t not in tasks_at_return])
+            elif k == 'loginslow':
+                if not can_login:
+                    inv = 1
+                else:
+                    saved_mode, srv.mode = srv.mode, 'accepted'
+                    arm['init'] = asyncio.Event()
+                    lt = asyncio.ensure_future(call(client.login()))
+                    app_calls.append(lt)
+                    await simloop.settle()
+                    arm['init'] = None
+                    srv.mode = saved_mode
+            elif k == 'breakwrites':
+                if not connected:
+                    inv = 1
+                else:
+                    w = lib_writer()
+                    w.fail_after = len(w.sent)
+                    if op[1]:
+                        async def gone():
+                            return None
+                        w.wait_closed = gone
             elif k == 'lossheld':
                 r, which = op[1], op[2]
                 if not connected or r == 'connect_failed' or (r in ('eof', 'read_error') and not reader_alive()):
@@ -849,12 +884,12 @@ def _monitor(case: dict, impl: dict) -> list[Violation]:
             add('C16-session-without-connection', f'after op #{i} {op} a session is present but the server connection '
                 f'is {row["c"]}', where)
         if session and row['c'] == 'connected' and 'reader' not in _minus([t for t in row['tasks'].split(',') if t], held) \
-                and not _is_stop(op):
+                and not _is_stop(op) and not ex.get('login_in_progress'):
             add('C16-session-without-reader', f'after op #{i} {op} a session is present but nothing reads from the '
                 f'server connection (no reader task): the loss of this connection would never be noticed', where,
                 'login() starts the reader of the connection it logged in on')
         # ---- M1: the burst
-        if op[0] in ('login', 'tick', 'logincut', 'loginat', 'loginrace', 'lossrec') and n_init == 1 and session \
+        if op[0] in ('login', 'tick', 'logincut', 'loginat', 'loginrace', 'lossrec', 'loginslow') and n_init == 1 and session \
                 and (not closed or op[0] == 'lossrec'):
             want, optional = _expected_burst(cfg)
             got = [f for f in row['frames'].split(';') if f]
@@ -1358,8 +1393,46 @@ HELD = [
 ]
 
 
+def _glue(tier: str) -> list[dict]:
+    """Monitor-only families (runtime glue the model does not express)."""
+    out = []
+    # the loss is noticed by a write of a task of the library that the CLOSING listeners cancel: the keep-alive
+    # (5 min after CONNECTED) or the wishlist job; the transport still there / already gone
+    for gone in (0, 1):
+        for rec in (True, False):
+            cfg = _base_cfg(reconnect=rec)
+            out.append({'kind': f'glue-ping-write-fails-{gone}', 'cfg': cfg, 'model': False,
+                        'ops': [['start'], ['login'], ['populate'], ['breakwrites', gone], ['tick', 601], ['exec'],
+                                ['tick', 24], ['exec'], ['populate']] + END})
+            out.append({'kind': f'glue-wishlist-write-fails-{gone}', 'cfg': cfg, 'model': False,
+                        'ops': [['start'], ['login'], ['populate'], ['breakwrites', gone], ['wl'], ['exec'],
+                                ['tick', 24], ['exec'], ['populate']] + END})
+        out.append({'kind': f'glue-ping-write-fails-{gone}-nofriends', 'cfg': _base_cfg(friends=[]), 'model': False,
+                    'ops': [['start'], ['login'], ['populate'], ['breakwrites', gone], ['tick', 601], ['exec'],
+                            ['tick', 24], ['exec']] + END})
+        out.append({'kind': f'glue-ping-write-fails-{gone}-stop', 'cfg': _base_cfg(), 'model': False,
+                    'ops': [['start'], ['login'], ['breakwrites', gone], ['tick', 601], ['tick', 4]] + END})
+    # a slow SessionInitialized listener of the application: the connection is lost and re-established (watchdog /
+    # application) before login() resumes
+    slow = [
+        [['loginslow'], ['loss', 'timeout'], ['tick', 22], ['release'], ['populate'], ['exec'], ['tick', 30], ['exec']],
+        [['loginslow'], ['loss', 'write_error'], ['tick', 22], ['exec'], ['release'], ['populate'], ['exec']],
+        [['loginslow'], ['loss', 'requested'], ['connect'], ['login'], ['release'], ['populate'], ['exec'], ['tick', 4]],
+        [['loginslow'], ['populate'], ['release'], ['populate'], ['exec'], ['tick', 4]],
+        [['loginslow'], ['loss', 'unknown'], ['release'], ['tick', 22], ['populate'], ['exec']],
+        [['loginslow'], ['loss', 'timeout'], ['tick', 22], ['stop'], ['release'], ['tick', HOUR_TICKS]],
+        [['loginslow'], ['stop'], ['release'], ['tick', HOUR_TICKS]],
+    ]
+    for i, mid in enumerate(slow):
+        ops = [['start']] + mid
+        if not any(_is_stop(o) for o in ops):
+            ops = ops + END
+        out.append({'kind': f'glue-slow-login-{i}', 'cfg': _base_cfg(), 'model': False, 'ops': ops})
+    return out
+
+
 def _sweeps(tier: str) -> list[dict]:
-    out = _break_sweep(_base_cfg(), EVENTS, 'fallback')
+    out = _glue(tier) + _break_sweep(_base_cfg(), EVENTS, 'fallback')
     out += _break_sweep(_base_cfg(race=True, reconnect=False), ['stop', 'requested'], 'race-mode')
     out += _race_sweep(_base_cfg(reconnect=False), ['stop'], range(0, 46), 'natural')
     out += _race_sweep(_base_cfg(), ['requested', 'reset', 'timeout'], range(0, 46, 3), 'natural')
